@@ -295,6 +295,38 @@ def encoded_case(res, seed, index, tier, rng):
     d = snapshot.diff(strip_links(E), strip_links(S))
     for path, a, b in d[:3]:
         res.violation(f"C04:decode:{snapshot.field_key(path)}", f"{path}: the documented encoding denotes {a}, rv loaded {b} (choices {ch.describe()})", desc)
+    if not d and index % 2 == 1 and kind == "project":
+        # what a loaded pattern holds is settled by the load: resizing or moving the object BEFORE anyone looks at its notes
+        # does not re-read the note bytes with the new geometry
+        try:
+            o2 = workload.load(raw)
+        except Exception as e:
+            res.violation(f"C04:second-load-raises:{workload.exc_key(e)}", f"loading the same bytes a second time raised {e!r}", desc)
+            return
+        for k, (pa, pb) in enumerate(zip(o.patterns, o2.patterns)):
+            if pa is None or pb is None or not hasattr(pb, "tracks") or not pa.tracks or not pa.lines:
+                continue
+            how = (index // 2 + k) % 4
+            t0, l0 = pb.tracks, pb.lines
+            if how == 0:
+                pb.tracks += 1
+            elif how == 1:
+                pb.lines += 3
+            elif how == 2:
+                pb.tracks, pb.lines = max(1, t0 - 1), max(1, l0 - 1)
+            else:
+                pb.x, pb.y, pb.name = pb.x + 4, pb.y - 32, "moved"
+            res.count("patterns_resized_before_first_look")
+            try:
+                want = [[n.raw_data for n in line] for line in pa.data]
+                got = [[n.raw_data for n in line[:t0]] for line in pb.data[:l0]]
+            except Exception as e:
+                res.violation(f"C04:pattern-first-look:{workload.exc_key(e)}", f"pattern {k}: reading the notes after changing {['tracks', 'lines', 'tracks and lines', 'position'][how]} raised {e!r}", desc)
+                break
+            if want != got:
+                res.violation("C04:pattern-first-look:notes-differ", f"pattern {k} ({t0}x{l0}): its notes depend on {['tracks', 'lines', 'tracks and lines', 'position'][how]} "
+                                                                    f"being changed before they were first read", desc)
+                break
     if not d and index % 2 == 0:
         # what bytes denote cannot depend on what happened to an object loaded from them earlier
         from . import c06
@@ -390,8 +422,19 @@ def edits_unknown(res, origin, raw, base_snap, desc, rng, tier):
         positions = range(1, nb)  # never before the header chunk
         if tier == "quick" and nb > 60:
             positions = sorted(set(rng.sample(range(1, nb), 60)) | {1, nb - 1})
+        states = position_states(chunks)
         for pos in positions:
-            for cid, pl in (UNKNOWN if tier == "thorough" else [UNKNOWN[(pos + len(path)) % len(UNKNOWN)]]):
+            mis = MISPLACED[states[pos]]
+            if tier == "thorough":
+                todo = UNKNOWN + mis
+            elif pos % 3 == 0:
+                todo = [mis[(pos // 3 + len(path)) % len(mis)]]
+            else:
+                todo = [UNKNOWN[(pos + len(path)) % len(UNKNOWN)]]
+            for cid, pl in todo:
+                if (cid, pl) in mis:
+                    res.count("misplaced_known_ids_inserted")
+                    res.hist("misplaced_ids", f"{cid.decode().strip()}@{states[pos]}")
                 new = [(c[0], c[1]) for c in chunks]
                 new.insert(pos, (cid, pl))
                 data = rebuild(top, path, new)
@@ -417,6 +460,17 @@ def edits_unknown(res, origin, raw, base_snap, desc, rng, tier):
                                   dict(desc, pos=pos, nesting=list(path), chunk=cid.decode()))
                     return
     res.count("nested_boundaries", 0)
+    # ... and none of all that is remembered: the unedited file still reads as it did
+    try:
+        S = _snap(workload.load(raw))
+    except Exception as e:
+        res.violation(f"C04:reload-after-unknown-chunks:{workload.exc_key(e)}", f"{origin}: after the files with extra chunks, the plain file fails to load: {e!r}", desc)
+        return
+    res.count("plain_reloads_after_unknown_chunks")
+    if S != base_snap:
+        d = snapshot.diff(base_snap, S)
+        res.violation(f"C04:unknown-chunk-remembered:{snapshot.field_key(d[0][0]) if d else '?'}",
+                      f"{origin}: after loading variants with extra (unknown-there) chunks, the plain file loads differently: {d[:2]}", desc)
 
 
 OPTIONAL_DEFAULTS = {b"BVER": ("based_on_version", (1, 7, 0, 0)), b"TIME": ("timeline_position", 0), b"REPS": ("restart_position", 0),
@@ -614,6 +668,34 @@ def edits_permute_groups(res, origin, raw, base_snap, desc, rng):
     if S != base_snap:
         d = snapshot.diff(base_snap, S)
         res.violation(f"C04:permuted-chunk-groups:{snapshot.field_key(d[0][0]) if d else '?'}", f"{origin}: with the module-specific chunk groups in another order {d[:2]}", desc)
+
+
+# ids the format DOES define, but for another part of the file: where they stand here they mean nothing, and what a reader
+# learned from skipping them must not change how it reads the places where they do mean something
+MISPLACED = {
+    "module": [(b"NAME", b"misplaced\0"), (b"BPM ", struct.pack("<i", 999)), (b"GVOL", struct.pack("<i", 7)), (b"PNME", b"x\0"), (b"TIME", bytes(4)), (b"BVER", bytes(4))],
+    "pattern": [(b"SNAM", bytes(32)), (b"CVAL", struct.pack("<i", 5)), (b"NAME", b"misplaced\0"), (b"GVOL", struct.pack("<i", 7)), (b"STYP", b"Amplifier\0")],
+    "project": [(b"SNAM", bytes(32)), (b"CVAL", struct.pack("<i", 5)), (b"CHNM", bytes(4)), (b"PNME", b"x\0"), (b"PCHN", struct.pack("<i", 3)), (b"STYP", b"Amplifier\0"), (b"CMID", bytes(8))],
+    "synth": [(b"NAME", b"misplaced\0"), (b"BPM ", struct.pack("<i", 999)), (b"GVOL", struct.pack("<i", 7)), (b"PNME", b"x\0"), (b"CVAL", struct.pack("<i", 5)), (b"SNAM", bytes(32))],
+}
+
+
+def position_states(chunks):
+    """For every insertion boundary of one nesting level: which reader is in charge there."""
+    kind = "synth" if chunks and chunks[0][0] == b"SSYN" else "project"
+    out, state = [], kind
+    for c in chunks:
+        out.append(state)
+        if c[0] == b"SFFF":
+            state = "module"
+        elif c[0] == b"SEND":
+            state = kind
+        elif c[0] in (b"PDTA", b"PPAR") and state == kind:
+            state = "pattern"
+        elif c[0] == b"PEND":
+            state = kind
+    out.append(state)
+    return out
 
 
 def run_edits(res, origin, raw, desc, rng, tier):
